@@ -70,6 +70,8 @@ def batches(ctx):
     for b in base:
         c = {"spe": 0, "dup": rng.randint(0, 5), "hgt": R.INF if rng.random() < 0.5 else rng.randint(0, 5), "floss": rng.randint(0, 5), "sloss": 1}
         cases.append({**b, "costs": c, "blank": rng.random() < 0.3})   # 30%: ancestors carry no names
+        if rng.random() < 0.2:   # an LCA structure was built on the same species tree while children were in another order
+            cases[-1]["prime_lca"] = True
         if rng.random() < 0.3:   # branch lengths / supports on both trees
             cases[-1]["dist"] = rng.randrange(1 << 30)
         if rng.random() < 0.3:   # same input object solved before while two subtrees hung elsewhere (recon.prime_topology)
